@@ -14,6 +14,7 @@ CONFIGS = [
     {"mol": "H2", "ansatz": "QCC", "mapping": "jw", "utd": False}, {"mol": "H2", "ansatz": "UCCSD", "mapping": "SCBK", "utd": True}, {"mol": "H2", "ansatz": "pUCCD", "mapping": "HCB", "utd": False},
     {"mol": "H4", "ansatz": "UCCSD", "mapping": "jw", "utd": False},
 ]
+CONFIGS.insert(11, {"mol": "H2", "ansatz": "circuit", "mapping": "jw", "utd": False})      # (within the quick tier's cut)
 
 _SOLVERS = {}
 
@@ -24,7 +25,14 @@ def build_solver(cfg, extra=None):
     key = (cfg["mol"], cfg["ansatz"], cfg["mapping"], cfg["utd"], str(extra))
     if key in _SOLVERS:
         return _SOLVERS[key]
-    opts = {"molecule": molecule(cfg["mol"]), "ansatz": getattr(BuiltInAnsatze, cfg["ansatz"]), "qubit_mapping": cfg["mapping"], "up_then_down": cfg["utd"]}
+    if cfg["ansatz"] == "circuit":
+        # the ansatz handed over as a plain Circuit with variational gates (wrapped by the solver into a VariationalCircuitAnsatz)
+        from tangelo.linq import Circuit, Gate
+        ans = Circuit([Gate("X", 0), Gate("X", 1), Gate("RY", 2, parameter=0.1, is_variational=True), Gate("CNOT", 3, 2), Gate("RZ", 0, parameter=0.2, is_variational=True),
+                       Gate("CRX", 1, 2, parameter=0.3, is_variational=True), Gate("H", 3), Gate("RX", 3, parameter=-0.4, is_variational=True)], n_qubits=4)
+    else:
+        ans = getattr(BuiltInAnsatze, cfg["ansatz"])
+    opts = {"molecule": molecule(cfg["mol"]), "ansatz": ans, "qubit_mapping": cfg["mapping"], "up_then_down": cfg["utd"]}
     if extra:
         opts.update(extra)
     s = VQESolver(opts)
@@ -47,7 +55,7 @@ def op_matrix(qop, n):
     return get_sparse_operator(o, n_qubits=n).toarray()
 
 
-@contract("C08", "O1.energy_estimation", level="B", structures=lambda tier: [dict(c) for c in (CONFIGS if tier != "quick" else CONFIGS[:12])],
+@contract("C08", "O1.energy_estimation", level="B", structures=lambda tier: [dict(c) for c in (CONFIGS if tier != "quick" else CONFIGS[:13])],
           native_samples=lambda st, rnd, tier: [{"seed": rnd.randint(0, 10 ** 6)} for _ in range(2 if tier == "quick" else 5)],
           targets=[(VQ, "VQESolver.energy_estimation"), (BK, "Backend.get_expectation_value")])
 def o1(h, st):
